@@ -166,6 +166,10 @@ Definition set_wasact v w := mkW (st w) (role w) (nin w) (nout w) (maxres w) (tr
 Definition set_lastt v w := mkW (st w) (role w) (nin w) (nout w) (maxres w) (treq w) (wasact w) v (wr w) (jr w).
 Definition set_wr v w := mkW (st w) (role w) (nin w) (nout w) (maxres w) (treq w) (wasact w) (lastt w) v (jr w).
 Definition set_jr v w := mkW (st w) (role w) (nin w) (nout w) (maxres w) (treq w) (wasact w) (lastt w) (wr w) v.
+Definition set_jsout v w := let j := jr w in set_jr (mkJ v (j_sin j) (j_out j) (j_in j)) w.
+Definition set_jsin v w := let j := jr w in set_jr (mkJ (j_sout j) v (j_out j) (j_in j)) w.
+Definition set_jout v w := let j := jr w in set_jr (mkJ (j_sout j) (j_sin j) v (j_in j)) w.
+Definition set_jin v w := let j := jr w in set_jr (mkJ (j_sout j) (j_sin j) (j_out j) v) w.
 
 Inductive event :=
 | Wire (m : msg)          (* bytes of this message handed to the stream writer *)
@@ -235,7 +239,7 @@ Definition persist_out (seq : Z) (m : msg) : M unit := fun w =>
   let j := jr w in
   if negb (in_i64 seq) then raise XOverflowIns w
   else if has_key seq (j_out j) then raise XDupSeq w
-  else mkR (inl tt) (set_jr (mkJ seq (j_sin j) (j_out j ++ [(seq, m)]) (j_in j)) w) [].
+  else mkR (inl tt) (set_jsout seq (set_jout (j_out j ++ [(seq, m)]) w)) [].
 
 (* persist_msg(raw, session, INBOUND): key = find_seq_no(raw) = int(bytes of the 34 field) *)
 Definition persist_in (m : msg) : M unit := fun w =>
@@ -248,7 +252,7 @@ Definition persist_in (m : msg) : M unit := fun w =>
       | Some seq =>
           if negb (in_i64 seq) then raise XOverflowIns w
           else if existsb (Z.eqb seq) (j_in j) then raise XDupSeq w
-          else mkR (inl tt) (set_jr (mkJ (j_sout j) seq (j_out j) (j_in j ++ [seq])) w) []
+          else mkR (inl tt) (set_jsin seq (set_jin (j_in j ++ [seq]) w)) []
       end
   end.
 
@@ -263,14 +267,14 @@ Definition set_seq_num (o i : option Z) : M unit :=
    | None => ret tt
    end) ;;;
   w <- getw ;;
-  let no := nout w in let ni := nin w in let j := jr w in
+  let no := nout w in let ni := nin w in
   if negb (in_i64 (ni - 1) && in_i64 (no - 1)) then raise XOverflow else
   (* UPDATE session SET inboundSeqNo, outboundSeqNo *)
-  modw (set_jr (mkJ (no - 1) (ni - 1) (j_out j) (j_in j))) ;;;
+  modw (fun w => set_jsout (no - 1) (set_jsin (ni - 1) w)) ;;;
   (if negb (in_i64 ni) then raise XOverflow else ret tt) ;;;
-  modw (fun w => let j := jr w in set_jr (mkJ (j_sout j) (j_sin j) (j_out j) (filter (fun k => k <? ni) (j_in j))) w) ;;;
+  modw (fun w => set_jin (filter (fun k => k <? ni) (j_in (jr w))) w) ;;;
   (if negb (in_i64 no) then raise XOverflow else ret tt) ;;;
-  modw (fun w => let j := jr w in set_jr (mkJ (j_sout j) (j_sin j) (filter (fun r => fst r <? no) (j_out j)) (j_in j)) w).
+  modw (fun w => set_jout (filter (fun r => fst r <? no) (j_out (jr w))) w).
 
 Fixpoint insert_row (r : Z * msg) (l : list (Z * msg)) : list (Z * msg) :=
   match l with
